@@ -244,6 +244,21 @@ func checkC07(c *km.Ctx) {
 	checkSQLArgKinds(c, "R-C07-2")
 	checkStmtTableKeys(c, "R-C07-2")
 	checkEvictionReachesPrimary(c, "R-C07-2")
+	// an eviction reaches the offline copy through the synchronisation: the copy is replaced by the primary's
+	// content at every run (C15's mirror obligations, as this property's own) - otherwise a hash evicted from the
+	// primary keeps deciding in the next outage
+	if c.R.Remap == nil {
+		c.R.Remap = func(rule, fn, construct string) (string, bool) {
+			if rule == "R-C15-3" {
+				return "R-C07-2", true
+			}
+			return "", false
+		}
+		saveExplain, saveND, saveAs := c.R.Explain, c.R.NotDecided, c.R.Assume
+		checkC15(c)
+		c.R.Explain, c.R.NotDecided, c.R.Assume = saveExplain, saveND, saveAs
+		c.R.Remap = nil
+	}
 	checkUpsertStatements(c, "R-C07-2", "expiring_signed_user_data", []string{"jws_data", "expiration_epoch"}, 2)
 	// ---------- R-C07-3 (the acceptance of a cached record is judged in checkLDAPVerdict)
 	if gs := c.MustFunc("R-C07-3", "cmd/keymasterd", "(*RuntimeState).GetSigned"); gs != nil {
